@@ -317,11 +317,13 @@ def r_one_spawner_per_request(ctx: Ctx, rule: str, names=("apply", "_map", "star
                 for kw in s.ast.keywords:
                     if kw.arg in ("coro",):
                         arg = kw.value
+                if arg is not None:
+                    arg = ctx.vals.resolve(s.func, arg)
                 if not isinstance(arg, ast.Call):
                     continue
                 t = ctx.an.scope(f).callee(arg).targets[0]
                 gexpr = ctx.call_arg(arg, t, "group_name")
                 for r in rets:
-                    same = gexpr is not None and ast.unparse(gexpr) == ast.unparse(r.ast.value)
+                    same = gexpr is not None and (ast.unparse(gexpr) == ast.unparse(r.ast.value) or ctx.vals.same((s.func, s.env, gexpr), (r.func, r.env, r.ast.value)))
                     rep.ob(rule, "the returned group name is the one handed to the spawner", same, node=r,
                            detail=f"spawner gets {ast.unparse(gexpr) if gexpr is not None else None}")
